@@ -341,6 +341,44 @@ def group_shape_sweep(ctx, root):
                 ctx.count('group_shape_strings')
 
 
+def group_bracket_separator_sweep(ctx, root):
+    """A bracket that holds an escaped separator (no bracket expression in path mode / Windows style) inside every kind of extended
+    list, closed and unclosed, with SPLIT on: every splitter and parser falls back to plain text without leaking its internal signals."""
+    inner = ['[a\\/b]', '[\\/]', '[a\\\\b]', '[!\\/]x', '[a\\/b', 'a[\\/]|b', '[\\/]|[\\\\]']
+    frames = ['{k}({x})', '{k}({x}', 'a/{k}({x})', '{k}({x})|y', '{k}(a|{x})', 'z|{k}({x}|b)/c', '{k}({k}({x}))|w']
+    fsets = [('EXTMATCH', 'SPLIT'), ('EXTMATCH', 'SPLIT', 'FORCEWIN'), ('EXTMATCH', 'GLOBSTAR', 'SPLIT', 'NEGATE'), ('EXTMATCH', 'SPLIT', 'BRACE', 'FORCEUNIX')]
+    idx = 0
+    for k in '@!*+?':
+        for fr in frames:
+            for x in inner:
+                for fnames in fsets:
+                    idx += 1
+                    if not ctx.mine(idx):
+                        continue
+                    text = fr.replace('{k}', k).replace('{x}', x)
+                    with ctx.case(label=(text, fnames)):
+                        exercise(ctx, text, fnames, root, idx % 2 == 0)
+                    ctx.count('group_bracket_separator_strings')
+
+
+def negated_group_brace_sweep(ctx, root):
+    """Literal braces (and other text that looks like a replacement field or a regex) behind a negated group in the same segment."""
+    tails = ['{', '}', '{}', 'x{1,2}', '[{}]', '{0}', '{a', 'a}', '{{', '}}', '%s', '{!r}', '\\{', '{:d}', '$', '\\g<0>']
+    heads = ['!(a)', '!(a|b)', 'x!(a)', '!(a)!(b)', '@(!(a))', 'd/!(a)', '!(*)']
+    fsets = [('EXTMATCH',), ('EXTMATCH', 'BRACE'), ('EXTMATCH', 'GLOBSTAR', 'DOTMATCH'), ('EXTMATCH', 'SPLIT', 'NEGATE'), ('EXTMATCH', 'FORCEWIN')]
+    idx = 0
+    for h in heads:
+        for t in tails:
+            for fnames in fsets:
+                idx += 1
+                if not ctx.mine(idx):
+                    continue
+                for text in (h + t, h + t + '/b'):
+                    with ctx.case(label=(text, fnames)):
+                        exercise(ctx, text, fnames, root, idx % 2 == 0)
+                    ctx.count('negated_group_brace_strings')
+
+
 def rawchars_value_sweep(ctx, root):
     """Every octal escape value 0..0o777 and every hex escape value, alone / inside a bracket / as a range end, str and bytes,
     under RAWCHARS: a complete escape never raises (values above the type's range fold or are documented errors)."""
@@ -455,6 +493,8 @@ def run(ctx):
         win_prefix_sweep(ctx, root)
         group_shape_sweep(ctx, root)
         group_sequence_sweep(ctx, root)
+        group_bracket_separator_sweep(ctx, root)
+        negated_group_brace_sweep(ctx, root)
         rawchars_value_sweep(ctx, root)
         tilde_sweep(ctx, root)
 
